@@ -880,7 +880,7 @@ def family_A(seed: int, count: int) -> List[Spec]:
 def family_X(seed: int, count: int, *, race=False) -> List[Spec]:
     rng = random.Random(seed)
     out = []
-    shapes = ["single", "equal_pair", "two_delays", "periodic", "named", "nested", "parallel"]
+    shapes = ["single", "equal_pair", "two_delays", "periodic", "named", "nested", "parallel", "slow_exit"]
     if race:
         shapes = shapes + ["start_race", "send_race"]
     for i in range(count):
@@ -920,6 +920,10 @@ def family_X(seed: int, count: int, *, race=False) -> List[Spec]:
                             "r2": {"initial": "u", "entry": ["en:m.A.r2"], "exit": ["ex:m.A.r2"],
                                    "states": {"u": {"entry": ["en:m.A.r2.u"], "exit": ["ex:m.A.r2.u"],
                                                     "after": {str(d2): {"target": "#m.B", "actions": ["tr:af2"]}}}}}}}
+        elif shape == "slow_exit":
+            # leaving A suspends in A's exit action while A's timer would come due
+            A["after"] = {str(d1): {"target": "#m.C", "actions": ["tr:af1"]}}
+            A["exit"] = ["ex:m.A", "slow:100:exA"]
         elif shape in ("start_race", "send_race"):
             # an entry action raises while the state owns a live timer and an eventless transition leaves it:
             # leaving suspends in the timer's cancellation, with the raised event already queued
@@ -946,7 +950,7 @@ def family_X(seed: int, count: int, *, race=False) -> List[Spec]:
 def family_V(seed: int, count: int) -> List[Spec]:
     rng = random.Random(seed)
     out = []
-    shapes = ["one", "no_onerror", "two", "with_after", "nested", "reenter_done"]
+    shapes = ["one", "no_onerror", "two", "with_after", "nested", "reenter_done", "slow_exit"]
     for i in range(count):
         shape = shapes[i % len(shapes)]
         inv = lambda iid, src, done, err=True: {"src": src, "id": iid,
@@ -972,6 +976,10 @@ def family_V(seed: int, count: int) -> List[Spec]:
                                    "on": {"IN": {"target": "#m.A.a2", "actions": ["tr:in"]}}},
                             "a2": {"entry": ["en:m.A.a2"], "exit": ["ex:m.A.a2"], "on": {"IN": {"target": "#m.A.a1", "actions": ["tr:in2"]}}}}}
             services["s2"] = "driver"
+        elif shape == "slow_exit":
+            # the service can complete while the exit action of the invoking state is suspended
+            A["invoke"] = inv("i1", "s1", "#m.B")
+            A["exit"] = ["ex:m.A", "slow:100:exA"]
         elif shape == "reenter_done":
             A["invoke"] = {"src": "s1", "id": "i1", "onDone": {"target": "#m.A", "reenter": True, "actions": ["tr:done:i1"]},
                            "onError": {"target": "#m.C", "actions": ["tr:err:i1"]}}
